@@ -286,4 +286,14 @@ def run_control(prop: str, base: Tree):
     if v is None:
         return (vid, "missing", [])
     r = _run_one((v[0], v[1], v[2], v[3], v[4], v[5], base.files))
-    return (r[0], r[3], r[4])
+    if r[3] == "violation":
+        return (r[0], r[3], r[4])
+    # the designated control does not apply to this tree (its anchor text was rewritten) or the rewritten code is
+    # outside what its rule recognises: any other breaking edit of the same property serves as the control
+    first = r
+    for v in VARIANTS:
+        if v[2] == prop and v[1] == "B" and v[0] != vid:
+            r = _run_one((v[0], v[1], v[2], v[3], v[4], v[5], base.files))
+            if r[3] == "violation":
+                return (r[0], r[3], r[4])
+    return (first[0], first[3], first[4])
